@@ -51,7 +51,60 @@ type vfC39Cfg struct {
 	Pool     int    `json:"pool"`
 	Policy   int    `json:"policy"`  // ICETransportPolicy 0..2
 	Servers  []int  `json:"servers"` // indices into vfC39Servers
+	// Gen: structured ICE server entries (SetConfiguration arguments only), appended after Servers
+	Gen []vfC39GenServer `json:"gen,omitempty"`
 	AlwaysDC bool   `json:"always_dc"`
+}
+
+// vfC39GenServer is one ICE server entry with 1..3 URLs in a drawn order.
+type vfC39GenServer struct {
+	Schemes []int `json:"schemes"` // per URL: 0 stun, 1 stuns, 2 turn, 3 turns
+	NoUser  bool  `json:"no_user,omitempty"`
+	Cred    int   `json:"cred"`  // 0 string, 1 OAuthCredential, 2 int, 3 nil
+	CType   int   `json:"ctype"` // 0 password, 1 oauth, 2 an undeclared ICECredentialType value
+}
+
+func (g vfC39GenServer) build() ICEServer {
+	var srv ICEServer
+	for i, sc := range g.Schemes {
+		srv.URLs = append(srv.URLs, fmt.Sprintf("%s:192.0.2.%d:%d", []string{"stun", "stuns", "turn", "turns"}[vfC39Mod(sc, 4)], 40+i, 3478+i))
+	}
+	if !g.NoUser {
+		srv.Username = "user"
+	}
+	switch vfC39Mod(g.Cred, 4) {
+	case 0:
+		srv.Credential = "secret"
+	case 1:
+		srv.Credential = OAuthCredential{MACKey: "k", AccessToken: "t"}
+	case 2:
+		srv.Credential = 123
+	}
+	srv.CredentialType = []ICECredentialType{ICECredentialTypePassword, ICECredentialTypeOauth, ICECredentialType(7)}[vfC39Mod(g.CType, 3)]
+	return srv
+}
+
+// valid: the documented rule (W3C set-the-configuration 11.3.x): every turn:/turns: URL of the
+// entry needs a username and a credential whose Go type fits the declared credential type;
+// stun:/stuns: URLs need nothing.
+func (g vfC39GenServer) valid() bool {
+	hasTURN := false
+	for _, sc := range g.Schemes {
+		hasTURN = hasTURN || vfC39Mod(sc, 4) >= 2
+	}
+	if !hasTURN {
+		return true
+	}
+	if g.NoUser {
+		return false
+	}
+	switch vfC39Mod(g.CType, 3) {
+	case 0:
+		return vfC39Mod(g.Cred, 4) == 0
+	case 1:
+		return vfC39Mod(g.Cred, 4) == 1
+	}
+	return false
 }
 
 type vfC39Step struct {
@@ -188,10 +241,20 @@ func (c vfC39Cfg) build(validOnly bool) Configuration {
 			cfg.ICEServers = append(cfg.ICEServers, vfC39Servers[vfC39Mod(i, len(vfC39Servers))].S)
 		}
 	}
+	if !validOnly {
+		for _, g := range c.Gen {
+			cfg.ICEServers = append(cfg.ICEServers, g.build())
+		}
+	}
 	return cfg
 }
 
 func (c vfC39Cfg) serversValid() bool {
+	for _, g := range c.Gen {
+		if !g.valid() {
+			return false
+		}
+	}
 	for _, i := range c.Servers {
 		if !vfC39Servers[vfC39Mod(i, len(vfC39Servers))].Valid {
 			return false
@@ -474,6 +537,17 @@ func vfC39Run(v *vfT, c vfC39Case) {
 			state = "open+pending-local"
 		}
 		v.Label(fmt.Sprintf("set:state=%s,touches=%s,servers-valid=%v", state, touch, srvOK))
+		for _, g := range st.Cfg.Gen {
+			mixed := false
+			for k, sc := range g.Schemes {
+				mixed = mixed || (vfC39Mod(sc, 4) >= 2 && k > 0 && vfC39Mod(g.Schemes[0], 4) < 2)
+			}
+			if mixed {
+				v.Label(fmt.Sprintf("generated-server:stun-first-then-turn,valid=%v", g.valid()))
+			} else {
+				v.Label(fmt.Sprintf("generated-server:other,valid=%v", g.valid()))
+			}
+		}
 		if len(st.Cfg.Certs) > 0 && len(st.Cfg.Certs) == len(c.Init.Certs) {
 			sameKeys, reissued := true, false
 			for k := range st.Cfg.Certs {
@@ -654,15 +728,27 @@ func vfC39GenCfg(t *rapid.T, base *vfC39Cfg, initial bool) vfC39Cfg {
 			c.Servers = append(c.Servers, rapid.IntRange(vfC39NValid, len(vfC39Servers)-1).Draw(t, "badsrv"))
 		}
 	}
+	if !initial && rapid.IntRange(0, 2).Draw(t, "withGen") == 0 {
+		ng := rapid.IntRange(1, 2).Draw(t, "ngen")
+		for i := 0; i < ng; i++ {
+			g := vfC39GenServer{
+				Schemes: rapid.SliceOfN(rapid.IntRange(0, 3), 1, 3).Draw(t, "schemes"),
+				NoUser:  rapid.IntRange(0, 7).Draw(t, "noUser") == 0,
+				Cred:    rapid.IntRange(0, 3).Draw(t, "cred"),
+				CType:   rapid.IntRange(0, 2).Draw(t, "ctype"),
+			}
+			c.Gen = append(c.Gen, g)
+		}
+	}
 	return c
 }
 
 func TestVerif_C39_Sequences(t *testing.T) {
 	vfProperty(t, "C39", vfOpts{
-		Rule: "initial Configuration (policies, identity, 0..2 certificates from a pool, pool size 0/1, valid ICE servers) x 1..8 operations: SetConfiguration whose fields are independently unchanged / zero / changed (certificates from a pool of 4 ECDSA keys and 1 RSA key with two different certificates per key: same, same re-imported from PEM, one replaced by another key's, one or all re-issued for the same key, reordered, longer, shorter; ICE servers valid or one of 8 invalid forms), 'create the local description' (pending), 'complete an offer/answer exchange with a throw-away peer as offerer or answerer' (local description becomes current, state stable), Close; non-trivial = the sequence contains both a rejected and an accepted SetConfiguration",
+		Rule: "initial Configuration (policies, identity, 0..2 certificates from a pool, pool size 0/1, valid ICE servers) x 1..8 operations: SetConfiguration whose fields are independently unchanged / zero / changed (certificates from a pool of 4 ECDSA keys and 1 RSA key with two different certificates per key: same, same re-imported from PEM, one replaced by another key's, one or all re-issued for the same key, reordered, longer, shorter; ICE servers valid or one of 8 invalid forms, plus generated entries with 1..3 stun/stuns/turn/turns URLs in drawn order x username present/absent x credential {string, OAuthCredential, int, nil} x credential type {password, oauth, undeclared}), 'create the local description' (pending), 'complete an offer/answer exchange with a throw-away peer as offerer or answerer' (local description becomes current, state stable), Close; non-trivial = the sequence contains both a rejected and an accepted SetConfiguration",
 		Assumptions: []string{"a zero-valued field in the argument means 'leave unchanged' (pion's documented convention), so only non-zero differing values are attempts to change",
 			"a pure reordering of the same certificates is counted as ambiguous and only the weaker clauses are asserted on it",
-			"ICE-server validity comes from a hand-labelled table (W3C set-the-configuration 11.3.x, RFC 7064/7065)",
+			"ICE-server validity comes from a hand-labelled table and, for generated entries, from the rule 'every turn(s) URL needs a username and a credential whose type fits the credential type' (W3C set-the-configuration 11.3.x, RFC 7064/7065)",
 			"PeerConnections run on an isolated virtual network (pion/transport vnet, no router) so gathering started by the local description or a candidate pool touches no real socket",
 			"after Close only 'an attempt to change is an error' and 'an error leaves the configuration alone' are asserted; the error type is counted"},
 	}, func(v *vfT) vfC39Case {
